@@ -8,8 +8,11 @@ Definition pins : list string := ["usim/_primitives/concurrent_exception.py:Meta
   "usim/_primitives/concurrent_exception.py:MetaConcurrent._subclasscheck_specialisation";
   "usim/_primitives/concurrent_exception.py:MetaConcurrent.__getitem__";
   "usim/_primitives/concurrent_exception.py:MetaConcurrent._get_specialisation";
+  "usim/_primitives/concurrent_exception.py:MetaConcurrent.__repr__";
   "usim/_primitives/concurrent_exception.py:Concurrent.__new__";
   "usim/_primitives/concurrent_exception.py:Concurrent.__init__";
+  "usim/_primitives/concurrent_exception.py:Concurrent.__str__";
+  "usim/_primitives/concurrent_exception.py:Concurrent.__repr__";
   "usim/_primitives/concurrent_exception.py:Concurrent.flattened";
   "usim/_primitives/concurrent_exception.py:<module>";
   "usim/_primitives/concurrent_exception.py:MetaConcurrent.<attrs>";
